@@ -476,6 +476,70 @@ def run(ctx, model, n=None):
     ctx.count("%s/sessions" % STREAM, n)
 
 
+def run_altered(ctx, model, n=None):
+    """calls whose replies are scripted: the healthy call first (both sides), then the same call with the transports'
+    queues pre-loaded with its healthy replies of which one is altered (CIP status, PCCC STS byte, encapsulation status,
+    cut short, a flipped bit).  The real SLCDriver and the Lean one read the same replies: Tags, exception classes and
+    frames must agree; nothing but library exceptions may escape."""
+    import struct
+    from props.logixdrv import alter_reply
+    rng = ctx.rng
+    stream = "slc-altered"
+    n = ctx.budget(30, 300) if n is None else n
+    for i in range(n):
+        files, cfg = gen_setup(rng)
+        calls = [c for c in gen_calls(rng, files) if c[1]]
+        if not calls:
+            continue
+        pair = Pair(model, cfg)
+        if pair.open_error is not None or pair.sd_status != "ok" or pair.open_mismatch:
+            pair.close()
+            continue
+        kind, args, shapes = calls[0]
+        case0 = {"seed": ctx.seed, "index": i, "config": cfg, "calls": [[kind, shown_of(kind, args)]]}
+        r0 = len(pair.sock.replies)
+        impl, mod, line = pair.call(kind, args)
+        if mod is None or impl["result"] != mod["result"] or impl["result"][0] == "raise":
+            pair.close()
+            continue                      # the healthy comparison belongs to the slc-driver stream; a call that raises by itself is not judged here
+        healthy = [r for r in pair.sock.replies[r0:] if r is not None]
+        if not healthy:
+            pair.close()
+            continue
+        for rep in range(rng.choice([1, 2, 3])):
+            k = rng.randrange(len(healthy))
+            if rng.random() < 0.25 and len(healthy[k]) > 58:
+                bad = bytearray(healthy[k])
+                bad[58] = rng.choice([0x10, 0x50, 0xF0, 0x01])
+                what, bad = "pccc sts %#x" % bad[58], bytes(bad)
+            else:
+                what, bad = alter_reply(rng, healthy[k])
+            scripted = list(healthy)
+            scripted[k] = bad
+            pair.sock.pending[:] = list(scripted)
+            r = model.ask("sd.pending " + " ".join(sx.hexb(x) for x in scripted))
+            assert r == "ok", r
+            case = dict(case0, altered_reply=k, of=len(healthy), alteration=what, scripted=[x.hex()[:300] for x in scripted][:6])
+            impl, mod, line = pair.call(kind, args)
+            pair.sock.pending[:] = []
+            model.ask("sd.pending")
+            ctx.case(stream, (stream, cfg["table"][:200], repr(case0["calls"]), k, what, rep))
+            ctx.count("%s/alteration/%s" % (stream, what.split(" ")[0]))
+            if mod is None:
+                break
+            ctx.count("%s/outcome/%s" % (stream, impl["result"][0] if impl["result"][0] != "raise" else "raise:" + str(impl["result"][1])))
+            if impl["result"][0] == "raise" and (str(impl["result"][1]).startswith("foreign") or impl["result"][1] == "hang"):
+                ctx.violation("slc-public-call-raises-foreign:%s" % str(impl["result"][1]).split(":")[-1],
+                              {k_: v_ for k_, v_ in case.items() if k_ != "config"}, "%s raised %s" % (kind, impl["result"][1]))
+            if impl["result"] != mod["result"] or impl["frames"] != mod["frames"]:
+                ctx.mismatch(stream, dict(case, model_line=line[:2000]), str(impl["result"])[:400] + " frames=%d" % len(impl["frames"]),
+                             str(mod["result"])[:400] + " frames=%d" % len(mod["frames"]))
+                break
+            if impl["result"][0] == "raise":
+                break
+        pair.close()
+
+
 # ------------------------------------------------------------------ replay / development
 
 def unval(x):
